@@ -37,6 +37,9 @@ def to_sympy(facts, term, inline_depth=3, sym=None):
                 return -go(t[2][0], depth)
             if name.endswith("Decimal::abs"):
                 return sympy.Abs(go(t[2][0], depth))
+            if len(t[2]) == 1 and name.rsplit("::", 1)[-1] in ("from", "into") and ("convert::From" in name or "convert::Into" in name):
+                # lossless numeric conversion (u64::from(u8), Decimal::from(n)): the identity for the algebra
+                return go(t[2][0], depth)
             if name.endswith("::min") and len(t[2]) == 2:
                 return sympy.Min(go(t[2][0], depth), go(t[2][1], depth))
             if name.endswith("::max") and len(t[2]) == 2:
